@@ -93,7 +93,7 @@ def sprinkle(rng, m, ops):
     for _ in range(rng.choice([0, 0, 1, 1, 2, 3])):
         out.insert(rng.randint(0, len(out)), rng.choice(sw))
     # observer calls with default and non-default options somewhere before the checkpoint
-    ob = ['export', 'summary', 'cost', 'str'] + (['export_nobn', 'export_nobn'] if m == 'PIT' else [])
+    ob = ['export', 'export_run', 'summary', 'cost', 'str'] + (['export_nobn', 'export_nobn'] if m == 'PIT' else [])
     for _ in range(rng.choice([0, 1, 1, 2])):
         out.insert(rng.randint(0, len(out)), ('obs', rng.choice(ob)))
     r = rng.random()
@@ -103,6 +103,8 @@ def sprinkle(rng, m, ops):
         out += [('sw', 'train_rf', False), ('sw', 'train_dilation', False)] if rng.random() < 0.5 else [('sw', 'train_net_only', True)]
     elif r < 0.55:
         out.append(('sw', 'train_net_only', True))
+    if rng.random() < 0.25:
+        out += ([('eval',)] if rng.random() < 0.7 else []) + [('obs', 'export_run')]   # export, run the exported network (eval), checkpoint: no NAS-model forward in between
     return out
 
 
